@@ -29,6 +29,56 @@ func intLit(e ast.Expr) (int, bool) {
 	return n, err == nil
 }
 
+// leanNat translates an integer expression over len(lr.buf), cap(lr.buf), lr.size and literals
+// (+, -, *, parentheses) into a Lean expression over the naturals `len`, `cap`, `size`; "" when
+// the expression has another shape.  Go's `-` on ints becomes Lean's truncated subtraction: the
+// only difference the model takes, cap(lr.buf)-len(lr.buf), is never negative.
+func leanNat(f *file, e ast.Expr) string {
+	switch x := e.(type) {
+	case *ast.ParenExpr:
+		if in := leanNat(f, x.X); in != "" {
+			return "(" + in + ")"
+		}
+	case *ast.BasicLit:
+		if _, ok := intLit(x); ok {
+			return x.Value
+		}
+	case *ast.SelectorExpr:
+		if f.src(x) == "lr.size" {
+			return "size"
+		}
+	case *ast.CallExpr:
+		switch f.src(x) {
+		case "len(lr.buf)":
+			return "len"
+		case "cap(lr.buf)":
+			return "cap"
+		}
+	case *ast.BinaryExpr:
+		l, r := leanNat(f, x.X), leanNat(f, x.Y)
+		if l == "" || r == "" {
+			return ""
+		}
+		switch x.Op {
+		case token.ADD, token.SUB, token.MUL:
+			return "(" + l + " " + x.Op.String() + " " + r + ")"
+		}
+	}
+	return ""
+}
+
+// leanCmp translates a comparison of two such expressions into a Lean Bool.
+func leanCmp(f *file, e ast.Expr) string {
+	if b, ok := e.(*ast.BinaryExpr); ok {
+		l, r := leanNat(f, b.X), leanNat(f, b.Y)
+		op := map[token.Token]string{token.LSS: "<", token.LEQ: "≤", token.GTR: ">", token.GEQ: "≥", token.EQL: "=="}[b.Op]
+		if l != "" && r != "" && op != "" {
+			return "decide (" + l + " " + op + " " + r + ")"
+		}
+	}
+	return ""
+}
+
 // LineReader.send / Finish: delimiter, the CR test, the skip widths.
 func init() {
 	register("Reader", func() {
@@ -113,9 +163,57 @@ func init() {
 				delim, crByte, skipPlain, skipCR = 0, 0, 0, 0
 			}
 		}
+		// ReadAndSend's buffer management: when the buffer is regrown and to which capacity, what is
+		// offered to Read, and how consumed bytes are dropped
+		needGrow, growCap := "", ""
+		readOffer, dropConsumed, newCap := "?", "?", "?"
+		if ras := f.funcDecl("LineReader", "ReadAndSend"); ras == nil {
+			shapeErr("Reader", "LineReader.ReadAndSend not found")
+		} else {
+			if len(ras.Body.List) > 0 {
+				if is, ok := ras.Body.List[0].(*ast.IfStmt); ok && len(is.Body.List) == 1 && is.Else == nil {
+					needGrow = leanCmp(f, is.Cond)
+					if as, ok := is.Body.List[0].(*ast.AssignStmt); ok && len(as.Lhs) == 1 && f.src(as.Lhs[0]) == "lr.buf" {
+						// lr.buf = append(make([]byte, 0, X), lr.buf...)
+						if ap, ok := as.Rhs[0].(*ast.CallExpr); ok && f.src(ap.Fun) == "append" && len(ap.Args) == 2 && ap.Ellipsis.IsValid() && f.src(ap.Args[1]) == "lr.buf" {
+							if mk, ok := ap.Args[0].(*ast.CallExpr); ok && f.src(mk.Fun) == "make" && len(mk.Args) == 3 && f.src(mk.Args[1]) == "0" {
+								growCap = leanNat(f, mk.Args[2])
+							}
+						}
+					}
+				}
+			}
+			ast.Inspect(ras.Body, func(n ast.Node) bool {
+				switch x := n.(type) {
+				case *ast.CallExpr:
+					if f.src(x.Fun) == "lr.f.Read" && len(x.Args) == 1 {
+						readOffer = f.src(x.Args[0])
+					}
+				case *ast.AssignStmt:
+					if len(x.Lhs) == 1 && f.src(x.Lhs[0]) == "lr.buf" {
+						if sl, ok := x.Rhs[0].(*ast.SliceExpr); ok && sl.Low != nil {
+							dropConsumed = f.src(sl)
+						}
+					}
+				}
+				return true
+			})
+			if nl := f.funcDecl("", "NewLineReader"); nl != nil {
+				ast.Inspect(nl.Body, func(n ast.Node) bool {
+					if kv, ok := n.(*ast.KeyValueExpr); ok && f.src(kv.Key) == "buf" {
+						newCap = f.src(kv.Value)
+					}
+					return true
+				})
+			}
+			if needGrow == "" || growCap == "" {
+				shapeErr("Reader", "ReadAndSend: buffer regrowth is not `if <cmp> { lr.buf = append(make([]byte, 0, <expr>), lr.buf...) }`")
+				needGrow, growCap = "true", "0"
+			}
+		}
 		var b strings.Builder
 		b.WriteString("/-! GENERATED by /verif/go/extract from /repo/internal/tailer/logstream/reader.go (LineReader.send, Finish). -/\n")
-		b.WriteString("namespace MtailVerif.Generated.Reader\n")
+		b.WriteString("set_option linter.unusedVariables false\nnamespace MtailVerif.Generated.Reader\n")
 		fmt.Fprintf(&b, "def delim : UInt8 := %d\n", delim&0xff)
 		fmt.Fprintf(&b, "def crByte : UInt8 := %d\n", crByte&0xff)
 		fmt.Fprintf(&b, "def crCond : String := %s\n", leanStr(crCond))
@@ -123,6 +221,11 @@ func init() {
 		fmt.Fprintf(&b, "def skipCR : Nat := %d\n", skipCR)
 		fmt.Fprintf(&b, "def endDecCR : Nat := %d\n", endDec)
 		fmt.Fprintf(&b, "def finishSkipsEmpty : Bool := %v\n", finishSkips)
+		fmt.Fprintf(&b, "def needGrow (len cap size : Nat) : Bool := %s\n", needGrow)
+		fmt.Fprintf(&b, "def growCap (len cap size : Nat) : Nat := %s\n", growCap)
+		fmt.Fprintf(&b, "def readOffer : String := %s\n", leanStr(readOffer))
+		fmt.Fprintf(&b, "def dropConsumed : String := %s\n", leanStr(dropConsumed))
+		fmt.Fprintf(&b, "def newBuf : String := %s\n", leanStr(newCap))
 		b.WriteString("end MtailVerif.Generated.Reader\n")
 		write("Reader", b.String())
 	})
